@@ -6,7 +6,7 @@ original atom at every lattice offset with the same resolved record; every term 
 between that image's replicas with the same type id; type tables equal; original unchanged;
 1x1x1 is the identity.
 """
-import itertools
+import itertools, io
 import numpy as np
 from mc.checks.common import *
 from mc.alphabet.geom import CELLS
@@ -41,10 +41,27 @@ def late_terms(cell):
 STRUCTS.append(('17000 atoms: unbonded filler, then a 6-atom chain with every term kind', late_terms))
 
 
+def _warm_reads(a):
+    call(lambda: (list(a.elements), list(a.symbols) if hasattr(a, 'symbols') else None, len(a), a.num_atom_types)); call(a.cell_abc_alpha_beta_gamma)
+    call(a.save_lmpdat, io.StringIO()); call(a.save_p1_cif, io.StringIO())
+
+
+def _warm_search(a):
+    from mofun import find_pattern_in_structure
+    call(find_pattern_in_structure, a, Atoms(elements=[str(a.elements[0])], positions=[(0.0, 0.0, 0.0)]))
+    call(a.to_ase)
+
+
+HISTORIES = [('read elements / symbols / cell parameters and save (LAMMPS, CIF) before replicating', _warm_reads), ('search and convert to ASE before replicating', _warm_search),
+             ('replicate once (result discarded) before replicating', lambda a: call(a.replicate, (2, 1, 1))), ('replicate a replica: first 1x2x1, then the requested factors', 'replica')]
+
+
 def plan(tier, seed):
     Rmax = 3 if tier == 'quick' else 4
     cells = list(range(5)) if tier == 'quick' else list(range(6))
     scs = [dict(cell=ci, s=si, dims=list(d)) for ci in cells for si in range(len(STRUCTS) - 1) for d in itertools.product(range(1, Rmax + 1), repeat=3)]
+    # histories: read-only calls on the original first, replication of a replica, operations on the replica afterwards
+    scs += [dict(cell=ci, s=si, dims=list(d), history=h) for ci in (0, 2) for si in (1, 2, 5) for d in ((2, 1, 1), (1, 1, 1), (1, 2, 2)) for h in range(len(HISTORIES))]
     # beyond the small bound: large replication factors (49 = 7*7 is the first r with 1/(1/r) != r in doubles; 98, 103, 107 likewise) ...
     for ci in (0, 2):
         for si in (5, 1):
@@ -65,8 +82,18 @@ def run(sc, ctx):
     cell = CELLS[sc['cell']][1]
     A = STRUCTS[sc['s']][1](cell.copy())
     dims = tuple(sc['dims'])
-    before = raw_state(A)
     name = '%s in %s x%s' % (STRUCTS[sc['s']][0], CELLS[sc['cell']][0], dims)
+    if 'history' in sc:
+        hname, h = HISTORIES[sc['history']]
+        if h == 'replica':
+            A, err = call(A.replicate, (1, 2, 1))
+            if err:
+                return out
+            call(lambda: list(A.elements)); cell = np.asarray(A.cell, float)
+        else:
+            h(A)
+        name += ' after: ' + hname
+    before = raw_state(A)
     r, err = call(A.replicate, dims)
     if err:
         out['violations'].append(viol('replicate', 'exc:' + exc_sig(err), 'replicate raised %r: %s' % (err[0], name), sc, tb=err[1]))
@@ -115,8 +142,15 @@ def run(sc, ctx):
             bad.append(('tables', '%s changed: %r -> %r' % (tab, list(getattr(A, tab)), list(getattr(r, tab)))))
     if dims == (1, 1, 1) and raw_state(r) != before:
         bad.append(('identity', '1x1x1 replication is not the identity'))
+    els, err = call(lambda: [str(x) for x in r.elements])
+    if not bad and (err or els != [x[0] for x in ra]):
+        bad.append(('atoms', 'replica.elements gives %r, the per-atom types of the replica resolve to %r' % (err[0] if err else els[:8], [x[0] for x in ra][:8])))
+    if 'history' in sc and not bad:
+        # later operations on the replica must not reach the original, and vice versa
+        for msg in alias_probe(r, [('the original', A)], 'the replica'):
+            bad.append(('original-unmodified', msg))
     for clause, msg in bad[:3]:
-        out['violations'].append(viol('replicate', clause, '%s: %s' % (name, msg), sc, result=describe(r)))
+        out['violations'].append(viol('replicate', clause, '%s: %s' % (name, msg), sc, result=describe(r) if len(r.atom_types) < 200 else None))
     nterms = sum(len(v) for v in ft.values())
     out['outcomes']['images=%d terms=%d' % (nimg, nterms)] = 1
     if nimg > 1 and nterms:
